@@ -30,18 +30,19 @@ type C10Op struct {
 }
 
 type C10Case struct {
-	Kind     string    `json:"kind"`
-	FIFO     bool      `json:"fifo"`
-	Cap      int       `json:"cap"`
-	Init     int       `json:"init"`
-	Progs    [][]C10Op `json:"progs"`
-	Sched    []int     `json:"sched,omitempty"`
-	AllSched bool      `json:"allsched,omitempty"` // enumerate every schedule (bounded by MaxSched)
-	Policy   int       `json:"policy,omitempty"`   // push policy installed on the shared stack: 0 none, 1 rejects the second value of every batch, 2 rejects everything pushed by goroutine 0
-	YieldRel bool      `json:"yieldrel,omitempty"` // also yield right after every unlock (code running after the critical section is interleaved too)
-	Free     bool      `json:"free,omitempty"`     // free-running (no scheduler)
-	NegIdx   bool      `json:"negidx,omitempty"`   // SetNegativeIndices / SetForwardIndices on the shared stack: Remove then takes relative
-	FwdIdx   bool      `json:"fwdidx,omitempty"`   // indices, whose meaning depends on the length at the moment the call takes effect
+	Kind      string    `json:"kind"`
+	FIFO      bool      `json:"fifo"`
+	Cap       int       `json:"cap"`
+	Init      int       `json:"init"`
+	Progs     [][]C10Op `json:"progs"`
+	Sched     []int     `json:"sched,omitempty"`
+	AllSched  bool      `json:"allsched,omitempty"`  // enumerate every schedule (bounded by MaxSched)
+	Policy    int       `json:"policy,omitempty"`    // push policy installed on the shared stack: 0 none, 1 rejects the second value of every batch, 2 rejects everything pushed by goroutine 0
+	YieldRel  bool      `json:"yieldrel,omitempty"`  // also yield right after every unlock (code running after the critical section is interleaved too)
+	YieldHeld bool      `json:"yieldheld,omitempty"` // also yield right after every lock acquisition: the others run while the lock is held (they must block, or at least not write)
+	Free      bool      `json:"free,omitempty"`      // free-running (no scheduler)
+	NegIdx    bool      `json:"negidx,omitempty"`    // SetNegativeIndices / SetForwardIndices on the shared stack: Remove then takes relative
+	FwdIdx    bool      `json:"fwdidx,omitempty"`    // indices, whose meaning depends on the length at the moment the call takes effect
 }
 
 var errRejected = fmt.Errorf("rejected by the push policy")
@@ -287,6 +288,18 @@ func c10RunScheduled(c C10Case, sched []int) (out c10Outcome) {
 			if now := slotIDs(s); lastReleased != "" && now != lastReleased && hookViol == nil {
 				hookViol = violf("content-changed-outside-lock", "the slot vector changed while nobody held the lock: %s -> %s", lastReleased, now)
 			}
+		case "lock.ready":
+			if c.YieldHeld {
+				// park INSIDE the critical section (the lock is held and its bookkeeping written): whoever
+				// runs now must end up waiting for the lock; anything that changes the protected state
+				// meanwhile wrote without holding it
+				atHeld := slotIDs(s)
+				events <- event{g: g, kind: "held"}
+				<-resume[g]
+				if now := slotIDs(s); now != atHeld && hookViol == nil {
+					hookViol = violf("write-while-another-goroutine-holds-the-lock", "the protected state changed while goroutine %d held the lock and was parked: %s -> %s", g, atHeld, now)
+				}
+			}
 		case "lock.released":
 			owner = -1
 			lastReleased = slotIDs(s)
@@ -373,7 +386,7 @@ func c10RunScheduled(c C10Case, sched []int) (out c10Outcome) {
 		case "panic":
 			out.viol = violf("panic", "goroutine %d panicked: %s; history %v", ev.g, ev.msg, out.history)
 			return
-		case "want", "opdone", "finished", "released":
+		case "want", "opdone", "finished", "released", "held":
 			state[ev.g] = ev.kind
 			out.history = append(out.history, fmt.Sprintf("g%d:%s", ev.g, ev.kind))
 		}
@@ -686,6 +699,7 @@ func genC10(t *rapid.T, tier Tier) C10Case {
 		return c
 	}
 	c.YieldRel = rapid.Bool().Draw(t, "yieldrel")
+	c.YieldHeld = rapid.IntRange(0, 2).Draw(t, "yieldheld") == 0
 	for i := 0; i < 6*total+4; i++ {
 		c.Sched = append(c.Sched, rapid.IntRange(0, 2).Draw(t, "pick"))
 	}
@@ -742,6 +756,7 @@ func enumC10(tier Tier, yield func(C10Case)) {
 				}
 				if len(p1)+len(p2) == 2 || (tier.Thorough && (i+j)%3 == 0) {
 					yield(C10Case{Kind: stackKinds[cfgN%5], FIFO: fifo, Cap: cp, Init: init, Progs: [][]C10Op{p1, p2}, AllSched: true, YieldRel: true})
+					yield(C10Case{Kind: stackKinds[cfgN%5], FIFO: fifo, Cap: cp, Init: init, Progs: [][]C10Op{p1, p2}, AllSched: true, YieldHeld: true})
 				}
 				if p2[0].Op == "remove" && init >= 1 && (len(p1)+len(p2) == 2 || tier.Thorough) {
 					// the same with the index options on and the Remove given a relative index (last element / oversize)
@@ -771,7 +786,7 @@ func enumC10(tier Tier, yield func(C10Case)) {
 func init() {
 	Register(Def[C10Case]{
 		ID: "C10",
-		Rule: "(A) deterministic, harness-owned schedules: 2-3 goroutines x 1-3 mutators (Push, Pop, Insert, Remove, Replace, Swap, Reverse, Reset) on a shared mutex-enabled stack of length 0..3, LIFO/FIFO, with/without capacity, with/without a (rejecting) push policy, with/without the negative/forward index options (Remove then given relative indices); a cooperative scheduler (verifPoint hook) parks each goroutine at every lock.want and at every operation boundary (and, in half of the generated cases and part of the enumerated ones, also right after every unlock, so that code running after the critical section is interleaved too) and the schedule picks who continues. " +
+		Rule: "(A) deterministic, harness-owned schedules: 2-3 goroutines x 1-3 mutators (Push, Pop, Insert, Remove, Replace, Swap, Reverse, Reset) on a shared mutex-enabled stack of length 0..3, LIFO/FIFO, with/without capacity, with/without a (rejecting) push policy, with/without the negative/forward index options (Remove then given relative indices); a cooperative scheduler (verifPoint hook) parks each goroutine at every lock.want and at every operation boundary (and, in half of the generated cases and part of the enumerated ones, also right after every unlock, so that code running after the critical section is interleaved too; in a third of the generated and part of the enumerated ones also right after every lock acquisition, so that the others run while the lock is held: the protected state must be the same when the holder continues) and the schedule picks who continues. " +
 			"Enumeration: ALL schedules of 2 goroutines x <=2 ops over a 7-10 op alphabet on lengths 0..2 (quick: all single-op pairs and a deterministic seventh of the two-op pairs; thorough: all pairs plus 3x1). rapid: random programs and schedules. " +
 			"Oracle per execution: no panic; no self-deadlock, no parked-everybody deadlock, no lock leaked past an operation (from lock.held/lock.released ownership, deterministically); slot vector and configuration record (lock bookkeeping included) at lock.held equal those at the previous lock.released (shared state changes only under the lock); " +
 			"IsInit/kind/capacity/FIFO intact, Len<=capacity; every returned or remaining element was pushed or initial, at most once; brute-force linearizability: some order consistent with each goroutine's program reproduces every return value and the final content on the list model. " +
